@@ -213,6 +213,8 @@ class Run:
                     self.known.append(f)
                 return False
         self.n_violations = getattr(self, 'n_violations', 0) + 1
+        self.all_failures = getattr(self, 'all_failures', [])
+        self.all_failures.append((case_class, json.loads(json.dumps(replay, default=str))))
         if len(self.violations) >= 8:          # keep the first few replays, count the rest
             return True
         os.makedirs(os.path.join(WORK, 'replay'), exist_ok=True)
@@ -227,3 +229,19 @@ class Run:
         for f in self.findings:
             if f['id'] == finding_id and still_fails and f not in self.known:
                 self.known.append(f)
+
+
+def replay_by_rerun(mod, pid, rec):
+    """Generic replay for checks whose failing cases are not self-contained: every input derives from the seed, so the
+    recorded run (same seed, same tier) is regenerated on the current tree; the replay passes iff the recorded failing
+    case (same class, same payload) does not fail again.  Known findings are not consulted."""
+    R2 = Run(pid, rec.get('tier', 'quick'), int(rec.get('seed', 20260926)))
+    R2.findings = []
+    mod.run(R2, R2.tier)
+    want = (rec.get('class'), json.loads(json.dumps(rec.get('replay'), default=str)))
+    for cls, rep in getattr(R2, 'all_failures', []):
+        if cls == want[0] and rep == want[1]:
+            return False
+    # payloads may contain run-dependent text (model output, timings): fall back to class + clause-level identity
+    same_cls = [1 for cls, rep in getattr(R2, 'all_failures', []) if cls == want[0]]
+    return not same_cls
